@@ -21,7 +21,7 @@ where
     now: usize,
     iter: I,
     communication: Vec<ThreadCommunication<I::Item, T>>,
-    handles: Vec<std::thread::JoinHandle<()>>,
+    handles: Vec<Option<std::thread::JoinHandle<()>>>,
 }
 
 /// Send `U`, receive `V`.
@@ -60,7 +60,19 @@ where
         }
 
         // Get answer from the thread number `self.now`.
-        let result = self.communication[self.now].receive.recv().unwrap_or_default();
+        let result = match self.communication[self.now].receive.recv() {
+            Ok(result) => result,
+            Err(_) => {
+                // The thread is gone. Either it was told to stop (no more tasks) or `fun` panicked.
+                // Propagate the panic instead of silently ending the iteration.
+                if let Some(handle) = self.handles[self.now].take() {
+                    if let Err(payload) = handle.join() {
+                        std::panic::resume_unwind(payload);
+                    }
+                }
+                None
+            }
+        };
 
         // Some(task) means more work for the thread, None means the thread should finish.
         let _ = self.communication[self.now].send.send(self.iter.next());
@@ -89,7 +101,9 @@ where
 
         // Join all threads.
         while let Some(handle) = self.handles.pop() {
-            let _ = handle.join();
+            if let Some(handle) = handle {
+                let _ = handle.join();
+            }
         }
     }
 }
@@ -133,7 +147,7 @@ where
                 }
             }
         });
-        handles.push(handle);
+        handles.push(Some(handle));
 
         // Send the task.
         let _ = communication[t].send.send(next_task);
